@@ -437,6 +437,15 @@ def _concrete_mask_op(s, o, kind):
         ds, hi, _ = digits_of(s._sh[0], 8, max(32, j + 1))
         return SymInt(ds[j])
     L = o.bit_length()
+    if kind == "and" and s._sh is not None and s._sh[1] + L <= 4 * ENG.W:
+        # (v >> n) & mask : bits n.. of v itself (one decomposition of v serves every shift amount)
+        n0 = s._sh[1]
+        obs, ohi, _ = bits_of(s._sh[0], n0 + L)
+        acc = z3.IntVal(0)
+        for i in range(L):
+            if (o >> i) & 1:
+                acc = acc + (1 << i) * obs[n0 + i]
+        return SymInt(z3.simplify(acc))
     bs, hi, _ = bits_of(s.t, L)
     if kind == "and":
         acc = z3.IntVal(0)
